@@ -108,6 +108,7 @@ func checkC02(c *Ctx) {
 	ruleRootCut(c)
 	ruleRebase(c)
 	ruleCharAdvance(c)
+	ruleSpanLen(c)
 }
 
 // ROOT-CUT: the Source of a root block ends exactly where the span of the block it carries ends.
